@@ -48,6 +48,67 @@ type Obj struct {
 	H     Hash
 	Epoch uint64
 	Name  string
+	VC    []uint32
+}
+
+// Stamp is a vector-clock timestamp of an observation; oracles compare stamps with HB, never by
+// global step numbers (the exploration keeps one linearisation per happens-before class).
+type Stamp struct {
+	T  int
+	VC []uint32
+}
+
+// HB reports whether observation a happens-before (or is) observation b in every linearisation of
+// this execution's happens-before relation.
+func HB(a, b Stamp) bool {
+	if a.VC == nil || b.VC == nil {
+		return false
+	}
+	if a.T >= len(b.VC) {
+		return false
+	}
+	return a.VC[a.T] <= b.VC[a.T]
+}
+
+// Now returns the stamp of the running thread (ticks its own component).
+func StampNow() Stamp {
+	e := cur
+	if e == nil || e.running == nil {
+		return Stamp{}
+	}
+	t := e.running
+	t.tick()
+	return Stamp{T: t.idx, VC: append([]uint32(nil), t.vc...)}
+}
+
+func (t *Thread) tick() {
+	for len(t.vc) <= t.idx {
+		t.vc = append(t.vc, 0)
+	}
+	t.vc[t.idx]++
+}
+
+func joinVC(dst, src []uint32) []uint32 {
+	for len(dst) < len(src) {
+		dst = append(dst, 0)
+	}
+	for i, v := range src {
+		if v > dst[i] {
+			dst[i] = v
+		}
+	}
+	return dst
+}
+
+// sync makes the running thread's operation on o visible in both the causal hash chain and the
+// vector clocks (all operations on one object are totally ordered).
+func (e *Exec) sync(t *Thread, o *Obj, kind uint64) {
+	e.initObj(o, t)
+	t.chain = t.chain.MixH(o.H).Mix(kind)
+	o.H = t.chain
+	t.vc = joinVC(t.vc, o.VC)
+	t.tick()
+	o.VC = append(o.VC[:0], t.vc...)
 }
 
 // Thread is one controlled goroutine.
@@ -61,6 +122,8 @@ type Thread struct {
 	done   bool
 	chain  Hash
 	idHash Hash
+	idx    int
+	vc     []uint32
 	// select / channel hand-off result storage
 	Sel SelResult
 	// Daemon threads do not count for anything special; informational.
@@ -147,7 +210,7 @@ type Exec struct {
 	Crash        *Crash
 	finished     chan struct{}
 	clk          clock
-	recorder     Obj
+	nthreads     int
 	Trace        bool
 	Log          []string // step log (trace mode)
 	region       bool     // deviations allowed
@@ -161,6 +224,12 @@ type Exec struct {
 }
 
 var cur *Exec
+
+// BoundAll selects the cost model: false = only preemptions and early timer expiries are deviations,
+// the choice among runnable threads at a blocking point is free (fully expanded); true = every
+// departure from the deterministic default scheduler (continue the running thread, else the lowest
+// thread id, clock last) is a deviation. Set by Explore from Options.
+var BoundAll bool
 var epochCounter uint64
 
 // Cur returns the execution in progress, or nil in free mode.
@@ -194,7 +263,6 @@ func Run(strat Strategy, maxSteps int, trace bool, root func()) *Exec {
 	epochCounter++
 	e := &Exec{Epoch: epochCounter, strat: strat, MaxSteps: maxSteps, finished: make(chan struct{}), Trace: trace, region: true, Values: map[string]any{}}
 	e.clk.init()
-	e.recorder.H = HashString("recorder")
 	e.clockThread = &Thread{ID: "c", idv: []int{1 << 30}, Name: "clock", idHash: HashString("c")}
 	cur = e
 	t := e.newThread(nil, "root", root)
@@ -203,7 +271,10 @@ func Run(strat Strategy, maxSteps int, trace bool, root func()) *Exec {
 	<-e.finished
 	// unwind every parked thread, one at a time
 	e.aborting = true
-	for _, th := range e.threads {
+	// children before parents (reverse id order): a parent's deferred clean-up may wait natively
+	// for its children (http.Server.Close waits for Serve)
+	for i := len(e.threads) - 1; i >= 0; i-- {
+		th := e.threads[i]
 		if !th.done {
 			if th.pend != nil {
 				e.Blocked = append(e.Blocked, th.Name+"@"+th.pend.Kind)
@@ -238,10 +309,15 @@ func (e *Exec) newThread(parent *Thread, name string, fn func()) *Thread {
 	t.ID = sb.String()
 	t.idHash = HashString(t.ID)
 	t.chain = t.idHash
+	t.idx = e.nthreads
+	e.nthreads++
 	if parent != nil {
 		t.chain = t.chain.MixH(parent.chain)
 		parent.chain = parent.chain.Mix(uint64(parent.nspawn) + 77)
+		parent.tick()
+		t.vc = append([]uint32(nil), parent.vc...)
 	}
+	t.tick()
 	t.pend = &Pending{Kind: "start", Since: e.Steps}
 	// insert keeping threads sorted by path
 	i := sort.Search(len(e.threads), func(i int) bool { return pathLess(t.idv, e.threads[i].idv) })
@@ -317,10 +393,10 @@ func Touch(o *Obj, kind uint64) {
 	if e == nil || e.running == nil {
 		return
 	}
-	t := e.running
-	e.initObj(o, t)
-	t.chain = t.chain.MixH(o.H).Mix(kind)
-	o.H = t.chain
+	if e.aborting {
+		return
+	}
+	e.sync(e.running, o, kind)
 }
 
 // Observe folds a read of o into the running thread's chain without modifying o.
@@ -329,9 +405,13 @@ func Observe(o *Obj) {
 	if e == nil || e.running == nil {
 		return
 	}
+	if e.aborting {
+		return
+	}
 	t := e.running
 	e.initObj(o, t)
 	t.chain = t.chain.MixH(o.H).Mix(3)
+	t.vc = joinVC(t.vc, o.VC)
 }
 
 func (e *Exec) initObj(o *Obj, t *Thread) {
@@ -341,17 +421,15 @@ func (e *Exec) initObj(o *Obj, t *Thread) {
 	}
 }
 
-// Record folds an observation (a harness log append) into the global recorder object so that distinct
-// observation orders are distinct states.
+// Record folds an observation (a harness log append) into the observing thread's own causal chain.
+// Observations are NOT totally ordered among threads: oracles must compare them with stamps (HB).
 func Record(tag string) {
 	e := cur
-	if e == nil || e.running == nil {
+	if e == nil || e.running == nil || e.aborting {
 		return
 	}
 	t := e.running
-	h := HashString(tag)
-	t.chain = t.chain.MixH(e.recorder.H).MixH(h)
-	e.recorder.H = t.chain
+	t.chain = t.chain.MixH(HashString(tag))
 }
 
 // FoldValue folds a data value into the running thread's chain.
@@ -393,9 +471,7 @@ func PointOp(p *Pending) {
 	e.schedule(t)
 	t.pend = nil
 	if p.Obj != nil {
-		e.initObj(p.Obj, t)
-		t.chain = t.chain.MixH(p.Obj.H).Mix(HashString(p.Kind).A)
-		p.Obj.H = t.chain
+		e.sync(t, p.Obj, HashString(p.Kind).A)
 	} else {
 		t.chain = t.chain.Mix(HashString(p.Kind).A)
 	}
@@ -446,7 +522,7 @@ func (t *Thread) Chain() Hash    { return t.chain }
 func (e *Exec) fingerprint(t *Thread) Hash {
 	var a, b uint64
 	if e.KeyFn != nil {
-		h := e.KeyFn().MixH(e.clk.obj.H).Mix(uint64(e.clk.now)).Mix(e.regionH)
+		h := e.KeyFn().MixH(e.clk.hash()).Mix(e.regionH)
 		if t != nil {
 			h = h.MixH(t.idHash)
 		}
@@ -460,7 +536,7 @@ func (e *Exec) fingerprint(t *Thread) Hash {
 		a += h.A
 		b += h.B
 	}
-	h := Hash{a, b}.MixH(e.clk.obj.H).Mix(uint64(e.clk.now)).Mix(e.regionH)
+	h := Hash{a, b}.MixH(e.clk.hash()).Mix(e.regionH)
 	if t != nil {
 		h = h.MixH(t.idHash)
 	}
@@ -523,6 +599,8 @@ func (e *Exec) schedule(t *Thread) {
 					}
 				case tEnabled && i > 0:
 					p.Costs[i] = 1 // preemption
+				case BoundAll && i > 0:
+					p.Costs[i] = 1 // departure from the deterministic default order at a blocking point
 				}
 				if !e.region && p.Costs[i] > 0 {
 					p.Costs[i] = 1 << 20
@@ -659,8 +737,9 @@ func Join(th *Thread) {
 		return
 	}
 	Block("join", nil, func() bool { return th.done })
-	if cur != nil && cur.running != nil {
+	if cur != nil && cur.running != nil && !cur.aborting {
 		cur.running.chain = cur.running.chain.MixH(th.chain)
+		cur.running.vc = joinVC(cur.running.vc, th.vc)
 	}
 }
 
